@@ -59,7 +59,8 @@ type Case struct {
 	} `json:"seeklogs"`
 	Oids     []string `json:"oids"` // hex
 	Universe []string `json:"universe"`
-	Layout   bool     `json:"layout"` // emit the decoded layout
+	Layout   bool     `json:"layout"`   // emit the decoded layout
+	ReadFile string   `json:"readfile"` // do not write: read this file (written by the other implementation)
 }
 
 // a seek result is recorded as its first seekCap records, its length and its last record
@@ -221,6 +222,14 @@ func (r *runner) exec(dump string) map[string]interface{} {
 		r.rank[n] = i + 1
 	}
 
+	if c.ReadFile != "" {
+		data, err := realos.ReadFile(c.ReadFile)
+		if err != nil {
+			panic(err)
+		}
+		return r.readBack(data)
+	}
+
 	// ---- write
 	buf := &bytes.Buffer{}
 	var w *reftable.Writer
@@ -283,11 +292,16 @@ func (r *runner) exec(dump string) map[string]interface{} {
 	if dump != "" {
 		realos.WriteFile(filepath.Join(dump, c.ID+".ref"), data, 0644)
 	}
-	out := map[string]interface{}{"id": c.ID, "nh": 1, "size": len(data)}
 	if msg != "" || closeRes != "ok" {
-		out["events"] = r.ev
-		return out
+		return map[string]interface{}{"id": c.ID, "nh": 1, "size": len(data), "events": r.ev}
 	}
+	return r.readBack(data)
+}
+
+// readBack reads the bytes with the real reader (scan, seeks, RefsFor) and decodes them independently.
+func (r *runner) readBack(data []byte) map[string]interface{} {
+	c := r.c
+	out := map[string]interface{}{"id": c.ID, "nh": 1, "size": len(data)}
 
 	// ---- read back with the real reader
 	var rd *reftable.Reader
